@@ -353,6 +353,27 @@ def _translate_def(tr: Translator, body: List[ast.stmt]) -> Val:
         if isinstance(st, ast.Assign) and len(st.targets) == 1 and isinstance(st.targets[0], ast.Name):
             tr.env[st.targets[0].id] = tr.tr(st.value)
             continue
+        if (isinstance(st, ast.Assign) and len(st.targets) == 1 and isinstance(st.targets[0], ast.Tuple)
+                and isinstance(st.value, ast.Tuple) and len(st.value.elts) == len(st.targets[0].elts)
+                and all(isinstance(t, ast.Name) for t in st.targets[0].elts)):
+            vals = [tr.tr(v) for v in st.value.elts]       # a, b = x, y  (right-hand sides first)
+            for t, v in zip(st.targets[0].elts, vals):
+                tr.env[t.id] = v
+            continue
+        if isinstance(st, ast.If) and st.body and isinstance(st.body[-1], ast.Return):
+            # if c: return X  <rest>   ==  X if c else <rest>
+            rest = body[body.index(st) + 1:] if not st.orelse else st.orelse
+            kc, c, ec = tr.tr(st.test)
+            if kc != "bool":
+                raise Unsupported("if condition of kind " + kc)
+            saved = dict(tr.env)
+            k1, v1, e1 = _translate_def(tr, st.body)
+            tr.env = dict(saved)
+            k2, v2, e2 = _translate_def(tr, rest)
+            tr.env = saved
+            if k1 != k2:
+                raise Unsupported("if branches of different kinds")
+            return (k1, z3.If(c, v1, v2), _or(ec, z3.And(c, e1), z3.And(z3.Not(c), e2)))
         if isinstance(st, ast.Return):
             return tr.tr(st.value)
         if isinstance(st, ast.Try):
